@@ -129,6 +129,9 @@ Definition escaped_path (path raw : bstr) : bstr :=
   else if beq path [star] then [star]
   else escape Path path.
 
+(* goahttp ensureContext (before routing): RawPath when set, else Path *)
+Definition match_path (path raw : bstr) : bstr := if is_nil raw then path else raw.
+
 (* chi Mux.routeHTTP: the string that is routed *)
 Definition route_path (path raw : bstr) : bstr :=
   let rp := if is_nil raw then path else raw in
@@ -426,9 +429,9 @@ Inductive outcome :=
 | NotFound (e : enc)
 | MethodNotAllowed.
 
-(* o_pre: what ResolvePattern returned to each installed middleware that asked
+(* o_pre: what ResolvePattern and Vars returned to each installed middleware that asked
    before calling next (chain order); o_post: what it returns after next came back *)
-Record obs := { o_pre : list bstr; o_out : outcome; o_post : bstr }.
+Record obs := { o_pre : list (bstr * list (bstr * bstr)); o_out : outcome; o_post : bstr }.
 
 
 Section Dispatch.
@@ -459,11 +462,13 @@ Section Dispatch.
           mna := mna c || other_method_matches m segs |}, None)
     end.
 
-  (* goahttp ensureContext: when the context has no pattern yet (a middleware running
-     before chi routed), route now — on the same context, with the decoded URL.Path *)
-  Definition ensure_context (m : mux) (c : cctx) (me : method) (path : bstr) : cctx * bool :=
+  (* goahttp ensureContext: the context to read from. When the request's context has no
+     pattern yet (a middleware running before chi routed) a SCRATCH context is matched, on
+     RawPath when set, else Path (no "" -> "/" step here); the request's own context is
+     never written *)
+  Definition ensure_context (m : mux) (c : cctx) (me : method) (mp : bstr) : cctx * bool :=
     if negb (is_nil (route_pattern c)) then (c, true)
-    else match find_route m c me path with
+    else match find_route m ctx0 me mp with
          | (c', Some _) => (c', true)
          | (c', None) => (c', false)
          end.
@@ -474,9 +479,9 @@ Section Dispatch.
     | None => p
     end.
 
-  Definition resolve_pattern (m : mux) (c : cctx) (me : method) (path : bstr) : cctx * bstr :=
-    let (c', ok) := ensure_context m c me path in
-    (c', if ok then resolve_wildcard m me (route_pattern c') else []).
+  Definition resolve_pattern (m : mux) (c : cctx) (me : method) (mp : bstr) : bstr :=
+    let (c', ok) := ensure_context m c me mp in
+    if ok then resolve_wildcard m me (route_pattern c') else [].
 
   Fixpoint zip_vars (name_of_star : bstr) (ks vs : list bstr) : list (bstr * bstr) :=
     match ks, vs with
@@ -486,39 +491,35 @@ Section Dispatch.
     end.
 
   (* Vars: the (key, value) assignments in the order they are made *)
-  Definition vars (m : mux) (c : cctx) (me : method) (path : bstr) : cctx * list (bstr * bstr) :=
-    let (c', ok) := ensure_context m c me path in
-    (c', if ok then
-           zip_vars (match wild_get me (route_pattern c') (wild m) with Some n => n | None => [] end)
-                    (ukeys c') (uvals c')
-         else []).
+  Definition vars (m : mux) (c : cctx) (me : method) (mp : bstr) : list (bstr * bstr) :=
+    let (c', ok) := ensure_context m c me mp in
+    if ok then
+      zip_vars (match wild_get me (route_pattern c') (wild m) with Some n => n | None => [] end)
+               (ukeys c') (uvals c')
+    else [].
 
-  Fixpoint run_pre (m : mux) (c : cctx) (me : method) (path : bstr) (pre : list bool) : cctx * list bstr :=
-    match pre with
-    | [] => (c, [])
-    | true :: r => let (c1, p) := resolve_pattern m c me path in
-                   let (c2, ps) := run_pre m c1 me path r in (c2, p :: ps)
-    | false :: r => run_pre m c me path r
-    end.
+  (* what a middleware that asks before next is told: ResolvePattern and Vars *)
+  Definition pre_answer (m : mux) (me : method) (mp : bstr) : bstr * list (bstr * bstr) :=
+    (resolve_pattern m ctx0 me mp, vars m ctx0 me mp).
 
-  (* pre: for each installed middleware, whether it calls ResolvePattern before next *)
+  Definition count_true (l : list bool) : nat := length (filter (fun b => b) l).
+
+  (* pre: for each installed middleware, whether it calls ResolvePattern and Vars before next *)
   Definition serve (m : mux) (me : method) (wire : bstr) (pre : list bool) (acc_raw : mt) (acc_parsed : option mt)
     : option obs :=
     match set_path wire with
     | None => None
     | Some (path, raw) =>
-      let (c1, pres) := run_pre m ctx0 me path (firstn (length (mws m)) pre) in
-      match find_route m c1 me (route_path path raw) with
+      let mp := match_path path raw in
+      let pres := repeat (pre_answer m me mp) (count_true (firstn (length (mws m)) pre)) in
+      match find_route m ctx0 me (route_path path raw) with
       | (c2, Some r) =>
-        let (c3, vs) := vars m c2 me path in
-        let (c4, hp) := resolve_pattern m c3 me path in
-        let (_, pp) := resolve_pattern m c4 me path in
-        Some {| o_pre := pres; o_out := Handled (r_h r) vs hp; o_post := pp |}
+        Some {| o_pre := pres; o_out := Handled (r_h r) (vars m c2 me mp) (resolve_pattern m c2 me mp);
+                o_post := resolve_pattern m c2 me mp |}
       | (c2, None) =>
-        let (_, pp) := resolve_pattern m c2 me path in
         Some {| o_pre := pres;
                 o_out := if mna c2 then MethodNotAllowed else NotFound (response_encoder acc_raw acc_parsed);
-                o_post := pp |}
+                o_post := resolve_pattern m c2 me mp |}
       end
     end.
 End Dispatch.
